@@ -144,7 +144,7 @@ theorem not_five_of_a_kind {cs : List Card} (h : FiveCards cs)
   simp [h.len] at this
 
 /-- suited distinct cards have distinct ranks -/
-theorem suited_ranks_nodup {cs : List Card} (h : FiveCards cs) (hs : areSuited cs = true) :
+theorem suited_ranks_nodup' {cs : List Card} (hn : cs.Nodup) (hs : areSuited cs = true) :
     (cs.map (·.rank)).Nodup := by
   have hone : ∀ c ∈ cs, ∀ d ∈ cs, c.suit = d.suit := by
     intro c hc d hd
@@ -159,9 +159,12 @@ theorem suited_ranks_nodup {cs : List Card} (h : FiveCards cs) (hs : areSuited c
       simp only [List.mem_cons, List.mem_nil_iff, or_false] at hc' hd'
       rw [hc', hd']
     | _ :: _ :: _, hle, _, _ => simp at hle
-  apply List.Nodup.map_on _ h.nodup
+  apply List.Nodup.map_on _ hn
   intro c hc d hd hr
   exact card_ext hr (hone c hc d hd)
+
+theorem suited_ranks_nodup {cs : List Card} (h : FiveCards cs) (hs : areSuited cs = true) :
+    (cs.map (·.rank)).Nodup := suited_ranks_nodup' h.nodup hs
 
 /-- the signature of five distinct cards is in the enumerated family -/
 theorem signature_mem {cs : List Card} (h : FiveCards cs) :
@@ -284,6 +287,36 @@ theorem accept_of_check (T : Tables) (l : LookupId) (t : Lookup) (hT : T.tbl l =
     rw [hl, hgb, hT]
     simp [Lookup.contains_of_get he2, he2]
 
+/-- the same for `get_entry_or_none` (the opening lookups are consulted through it) -/
+theorem entry_of_check (T : Tables) (l : LookupId) (t : Lookup) (hT : T.tbl l = t)
+    (spec : List Rank → Bool → List Nat) (lab : List Nat → Nat) (sigs : List Sig)
+    (hok : tableOk t spec lab sigs = true) (a b : List Card)
+    (hra : l.rainbow = false ∨ areRainbow a = true) (hrb : l.rainbow = false ∨ areRainbow b = true)
+    (ra : List Rank) (hpa : ra.Perm (a.map (·.rank))) (hma : (ra, areSuited a) ∈ sigs)
+    (hsa : spec ra (areSuited a) = spec (a.map (·.rank)) (areSuited a))
+    (rb : List Rank) (hpb : rb.Perm (b.map (·.rank))) (hmb : (rb, areSuited b) ∈ sigs)
+    (hsb : spec rb (areSuited b) = spec (b.map (·.rank)) (areSuited b)) :
+    ∃ x y, getEntryOrNone T l a = .ok (some x) ∧ getEntryOrNone T l b = .ok (some y) ∧
+      x.label = lab (spec (a.map (·.rank)) (areSuited a)) ∧
+      (x.index < y.index ↔
+        lexLt (spec (a.map (·.rank)) (areSuited a)) (spec (b.map (·.rank)) (areSuited b)) = true) ∧
+      (x.index = y.index ↔
+        spec (a.map (·.rank)) (areSuited a) = spec (b.map (·.rank)) (areSuited b)) := by
+  obtain ⟨k1, k2, e1, e2, hk1, hk2, he1, he2, hlab, hlt, heq⟩ :=
+    tableOk_sound _ _ _ _ hok (ra, areSuited a) hma (rb, areSuited b) hmb
+  simp only at hk1 hk2 he1 he2 hlab hlt heq
+  rw [hsa, hsb] at hlt heq
+  rw [hsa] at hlab
+  have hga := getKey_of hra hpa hk1
+  have hgb := getKey_of hrb hpb hk2
+  refine ⟨e1, e2, ?_, ?_, hlab, hlt, heq⟩
+  · unfold getEntryOrNone
+    rw [hga, hT]
+    simp [he1]
+  · unfold getEntryOrNone
+    rw [hgb, hT]
+    simp [he2]
+
 /-- **rejection**: a card list whose signature is in a family the table has no entry for is not a hand
     (`ValueError`) -/
 theorem reject_of_check (T : Tables) (l : LookupId) (t : Lookup) (hT : T.tbl l = t)
@@ -316,5 +349,57 @@ theorem reject_not_rainbow (T : Tables) (ht : HandType) (a : List Card)
     mkHand T ht a = .error .valueError := by
   unfold mkHand hasEntry getKey
   simp [h1, h2]
+
+/-! ### exposed cards -/
+
+theorem exposedKey_perm (value : Rank → Nat) {a b : List Rank} (h : a.Perm b) (s : Bool) :
+    exposedKey value a s = exposedKey value b s := by
+  unfold exposedKey
+  rw [groupsFrom_perm (h.map value) 14, h.length_eq]
+
+/-- one to four distinct known cards -/
+structure UpCards (cs : List Card) : Prop where
+  pos : 1 ≤ cs.length
+  le4 : cs.length ≤ 4
+  nodup : cs.Nodup
+  known : ∀ c ∈ cs, c.rank < 13 ∧ c.suit < 4
+
+theorem up_sig {cs : List Card} (h : UpCards cs) :
+    ∃ rs : List Rank, rs.Perm (cs.map (·.rank)) ∧ (rs, areSuited cs) ∈ upSigs := by
+  let rs := (cs.map (·.rank)).insertionSort (· ≤ ·)
+  have hperm : rs.Perm (cs.map (·.rank)) := List.perm_insertionSort _ _
+  have hsorted : rs.Pairwise (· ≤ ·) := List.pairwise_insertionSort _ _
+  have hlen : rs.length = cs.length := by rw [hperm.length_eq, List.length_map]
+  have hb : ∀ x ∈ rs, 0 ≤ x ∧ x < 0 + 13 := by
+    intro x hx
+    obtain ⟨c, hc, rfl⟩ := List.mem_map.1 (hperm.mem_iff.1 hx)
+    exact ⟨Nat.zero_le _, by simpa using (h.known c hc).1⟩
+  have hmem : rs ∈ multisets 13 0 cs.length := mem_multisets 13 0 _ rs hlen hsorted hb
+  refine ⟨rs, hperm, ?_⟩
+  have h1 := h.pos; have h4 := h.le4
+  have hup : ∀ k, 2 ≤ k → cs.length = k → (rs, areSuited cs) ∈ signaturesUp k := by
+    intro k _ hk
+    unfold signaturesUp
+    rw [List.mem_flatMap]
+    refine ⟨rs, hk ▸ hmem, ?_⟩
+    cases hsu : areSuited cs with
+    | false => exact List.mem_cons_self
+    | true =>
+      have : strictlyIncreasing rs = true :=
+        strictlyIncreasing_of rs hsorted (hperm.nodup_iff.2 (suited_ranks_nodup' h.nodup hsu))
+      simp [this]
+  unfold upSigs
+  simp only [List.mem_append]
+  rcases (by omega : cs.length = 1 ∨ cs.length = 2 ∨ cs.length = 3 ∨ cs.length = 4) with e | e | e | e
+  · left; left; left
+    have hsu : areSuited cs = true := by
+      match cs, e with
+      | [c], _ => simp [areSuited, dedup]
+    unfold signaturesRainbow
+    rw [List.mem_map]
+    exact ⟨rs, e ▸ hmem, by rw [hsu]; rfl⟩
+  · left; left; right; exact hup 2 (by omega) e
+  · left; right; exact hup 3 (by omega) e
+  · right; exact hup 4 (by omega) e
 
 end PK
